@@ -24,14 +24,14 @@ import (
 // specification is checked position by position.
 
 type freeResult struct {
-	c        cfg
-	evs      []event
-	reported int
+	c          cfg
+	evs        []event
+	reported   int
 	sinkBefore int64
 	records    int
-	stuck    string
-	nilRet   bool
-	desc     map[string]any
+	stuck      string
+	nilRet     bool
+	desc       map[string]any
 }
 
 func freeOne(r *vgen.Rand) freeResult {
